@@ -333,12 +333,17 @@ impl From<&Ipv4Packet> for Vec<u8> {
     fn from(ipv4: &Ipv4Packet) -> Self {
         let header = ipv4.header.borrow().clone();
         let mut bytes: Vec<u8> = (&header).into();
-        if let Some(inner) = ipv4.inner.borrow().clone() {
-            let data: Vec<u8> = inner.as_ref().into();
-            bytes.extend_from_slice(&data);
-        } else {
-            let data = ipv4.rawdata.borrow().clone();
-            bytes.extend_from_slice(&data[ipv4.offset..]);
+        // An inner layer that failed to parse (error object) has no bytes of
+        // its own: the captured bytes are written as they are
+        match ipv4.inner.borrow().clone() {
+            Some(inner) if !inner.is_error() => {
+                let data: Vec<u8> = inner.as_ref().into();
+                bytes.extend_from_slice(&data);
+            }
+            _ => {
+                let data = ipv4.rawdata.borrow().clone();
+                bytes.extend_from_slice(&data[ipv4.offset..]);
+            }
         }
         bytes
     }
